@@ -32,6 +32,14 @@ PROPS['C06'] = dict(level='proof', functions=[ND + 'regress', ND + 'mse', ND + '
                     design='DESIGN.md §4 C06', technique=TECH,
                     note=NOTE + ' A-LINALG. Non-negativity, order-invariance, monotonicity and the LGANM causal link are corollaries L-LS/L-GAUSS (cited, cross-checked by the bounded tier only).',
                     claim='regress is proved to return coefficients that vanish outside S and satisfy the normal equations C_SS b_S = C_Sy with intercept mean_y - b.mean, for every dimension and index order; mse is proved to equal var_y + b C b^T - 2 C_y b^T for exactly those coefficients (a deterministic function of covariance, y and S only).')
+G = 'sempler.generators.'
+PROPS['C11'] = dict(level='proof', functions=[G + 'dag_avg_deg', G + 'dag_full'], bounded=[], design='DESIGN.md §4 C11', technique=TECH,
+                    note=NOTE + ' A-RNG: draws are uninterpreted functions of (generator state, arguments, position); uniform(lo,hi) lies in [lo,hi); permutation(p) is a bijection. Independence / uniformity of the draws (the Bernoulli(k/(p-1)) edge law, the random ordering) is the assumed law of numpy, not decided here.',
+                    claim='both generators are proved, for all p, k, weight ranges and seeds, to return the p x p matrix W[a,b] = weight[perm a, perm b] if perm a < perm b (and U[perm a, perm b] <= k/(p-1)) else 0: zero diagonal, non-zero entries inside [w_min,w_max], acyclic, no 2-cycles, complete for dag_full when 0 is outside the range; the ordering returned on request is a permutation and a topological order of the returned graph.')
+PROPS['C20'] = dict(level='proof', functions=['sempler.noise.normal', 'sempler.noise.uniform', 'sempler.noise.laplace', 'sempler.noise.zero', 'sempler.functions.null'], bounded=[],
+                    design='DESIGN.md §4 C20', technique=TECH,
+                    note=NOTE + ' A-RNG: the laws of np.random.normal/uniform/laplace (mean, variance, support) are assumed; the contracts pin the data flow into them.',
+                    claim='each factory is proved to return a callable whose value on n is exactly the n draws of numpy\'s global generator with the documented parameters (standard deviation sqrt(var) for normal; [lo,hi) for uniform; (mean, scale) for laplace; zeros for zero()), and null() == 0.')
 NOT_YET = {}
 
 GLOBAL_ASSUMPTIONS = [
